@@ -75,7 +75,11 @@ def check(repo: Repo, rep: Report) -> None:
     rep.ob("J2-max-concurrent", on_next, "subscribe(inner) only under active_count < max_concurrent (and count it)", ok and len(calls) == 1 and bool(inc)
            and inc[0].ctx.branch == calls[0].ctx.branch, "more than max_concurrent inner sequences can be subscribed at once")
     enq = [s for s in sites(on_next) if isinstance(s.node, ast.Call) and dotted(s.node.func) == "queue.append"]
-    ok = bool(enq) and any(isinstance(e, ast.Compare) and "active_count" in u(e) and (not p or ">=" in u(e)) for e, p in enq[0].ctx.guards)
+    ok = False
+    for e, p in (enq[0].ctx.guards if enq else ()):
+        r = compare_norm(e, lambda x: "active_count" in u(x))
+        if r and u(r[1]) == "max_concurrent" and ((p and r[0] in (">=", ">")) or (not p and r[0] in ("<", "<="))):
+            ok = True
     rep.ob("J2-max-concurrent", on_next, "otherwise the inner is queued", ok, "an inner arriving while the limit is reached is dropped or subscribed")
     ioc = helper.child("on_completed")
     pops = [s for s in sites(ioc) if isinstance(s.node, ast.Call) and isinstance(s.node.func, ast.Attribute) and dotted(s.node.func.value) == "queue"
